@@ -248,6 +248,7 @@ def bad_case(draw):
     spec = draw(G.signal_spec(nmin=1, nmax=32, dtypes=FLOATS, nchan_max=2, max_trailing=1))
     N = spec["n"]
     kind = draw(st.sampled_from(["neg_t", "past_end", "neg_n", "time_nostart", "past_end_frac", "neg_t_dur", "past_end_time", "past_end_narrow", "past_end_narrow",
+                                 "neg_t_frac", "neg_t_frac",
                                  "inf_t", "inf_dur", "neg_inf_t", "neg_inf_dur"]))
     out = {"sig": spec, "kind": kind, "n": draw(st.integers(0, N)), "k": draw(st.integers(1, 5)), "f": draw(st.integers(1, 1023))}
     if kind == "past_end_narrow":
@@ -275,6 +276,17 @@ def run_bad(case, stt):
     N, n, k = spec["n"], case["n"], case["k"]
     if kind == "neg_t":
         f = lambda: pb.snippet(z, -k, n)  # noqa
+    elif kind == "neg_t_frac":
+        # between the sample before the first and the first: still before the signal (in each form)
+        tneg = -[0.5, 0.25, 0.75, 1e-3, 0.999, 1e-6][k % 6] if case["f"] % 2 else -case["f"] / 1024
+        nn = min(n, max(N - 1, 0))
+        how = case["f"] % 3
+        if how == 1 or (how == 2 and (z.start_time is None or abs(tneg) / rate_hz(z) < 1e-9)):  # (a Time resolves ~40 ps: closer is the same instant)
+            f = lambda: pb.snippet(z, (tneg / z.sample_rate).to(u.s), nn)  # noqa
+        elif how == 2:
+            f = lambda: pb.snippet(z, z.start_time + tneg / z.sample_rate, nn)  # noqa
+        else:
+            f = lambda: pb.snippet(z, tneg, nn)  # noqa
     elif kind == "neg_t_dur":
         f = lambda: pb.snippet(z, (-k / z.sample_rate).to(u.s), n)  # noqa
     elif kind == "past_end":
